@@ -388,3 +388,52 @@ def p5(ctx: Ctx):
         for n in ast.walk(m.tree):
             if isinstance(n, ast.Call) and call_name(n) == "sorted" and n.args:
                 pass
+
+
+# ---------------------------------------------------------------------------
+# P13 EMISSION-READ-ONLY
+
+_MUTATORS = {"setdefault", "update", "pop", "popitem", "append", "extend", "insert", "add", "clear", "remove", "discard", "sort", "reverse", "__setitem__", "__delitem__"}
+
+
+def _root_name(e: ast.AST) -> Optional[str]:
+    while isinstance(e, (ast.Attribute, ast.Subscript)):
+        e = e.value
+    if isinstance(e, ast.Call) and isinstance(e.func, ast.Attribute):
+        return _root_name(e.func.value)
+    return e.id if isinstance(e, ast.Name) else None
+
+
+@rule("P13", "EMISSION-READ-ONLY: producing the output text changes nothing that outlives it - no store into, and no mutating call on, an object reached from `self` or from a parameter inside a `basic09_text` method", ["C12"], floor=40)
+def p13(ctx: Ctx):
+    py = pyfacts(ctx)
+    n = 0
+    for rel in ("coco/b09/elements.py", "coco/b09/prog.py"):
+        m = py.modules.get(rel)
+        if m is None:
+            continue
+        for cn, ci in sorted(m.classes.items()):
+            for mn, fn in sorted(ci.methods.items()):
+                if "basic09_text" not in mn:
+                    continue
+                n += 1
+                params = {a.arg for a in fn.args.args}
+                # locals bound to a fresh container are the method's own; locals that alias a field / parameter are not
+                aliases: Set[str] = set()
+                for a in walk_no_nested(fn):
+                    if isinstance(a, ast.Assign) and len(a.targets) == 1 and isinstance(a.targets[0], ast.Name) and isinstance(a.value, (ast.Attribute, ast.Name, ast.Subscript)) and _root_name(a.value) in params | aliases:
+                        aliases.add(a.targets[0].id)
+                bad = []
+                for x in walk_no_nested(fn):
+                    if isinstance(x, ast.Call) and isinstance(x.func, ast.Attribute) and x.func.attr in _MUTATORS and isinstance(x.func.value, (ast.Attribute, ast.Subscript, ast.Name)):
+                        r_ = _root_name(x.func.value)
+                        if r_ in params | aliases and not (isinstance(x.func.value, ast.Name) and x.func.value.id not in aliases and x.func.value.id not in params):
+                            bad.append((x.lineno, unparse(x)[:70]))
+                    if isinstance(x, (ast.Assign, ast.AugAssign, ast.Delete)):
+                        tgts = x.targets if isinstance(x, (ast.Assign, ast.Delete)) else [x.target]
+                        for t in tgts:
+                            if isinstance(t, (ast.Attribute, ast.Subscript)) and _root_name(t) in params | aliases:
+                                bad.append((x.lineno, unparse(t)[:70]))
+                ok = not bad
+                ctx.ob(f"{cn}.{mn}", ok, "" if ok else f"`{cn}.{mn}` changes `{bad[0][1]}` (line {bad[0][0]}) while producing text: the object belongs to the program / the caller's options, so a second emission or a later conversion that shares it sees a different state", file=rel, line=bad[0][0] if bad else fn.lineno)
+    ctx.need(n >= 1, "elements", "no basic09_text method found")
